@@ -108,12 +108,14 @@ def guard_g1(ctx: Context) -> bool:
             for k in c.keywords:
                 if k.arg == "stored_in_backend" and isinstance(k.value, ast.Constant) and k.value.value is True:
                     ok1 = True
-    ok2 = False
-    for n in walk_no_nested(sib.node):
-        if isinstance(n, ast.If) and ast.unparse(n.test).replace(" ", "") == "notself._stored_in_backend":
-            ups = [c for c in calls_in(n) if call_name(c) == "upsert_invocations"]
-            outside = [c for c in calls_in(sib.node) if call_name(c) == "upsert_invocations" and not any(x is c for x in ast.walk(n))]
-            ok2 = bool(ups) and not outside
+    # every upsert in store_in_backend happens only under `not self._stored_in_backend` (nested if or guard clause alike)
+    from ..cfg import build_cfg
+    from ..flow import conditions_at, parent_map
+
+    g_ = build_cfg(sib.node)
+    pm_ = parent_map(sib.node)
+    ups = [c for c in calls_in(sib.node) if call_name(c) == "upsert_invocations"]
+    ok2 = bool(ups) and all(any(ast.unparse(t).replace(" ", "") == "notself._stored_in_backend" for t in conditions_at(g_, sib.node, c, pm_)) for c in ups)
     ok3 = any(isinstance(n, ast.Assign) and ast.unparse(n.targets[0]) == "self._stored_in_backend" and ast.unparse(n.value) == "stored_in_backend" for n in walk_no_nested(init.node))
     # the assignment precedes the store_in_backend() call
     return ok1 and ok2 and ok3
